@@ -1,6 +1,7 @@
 package main
 
 import (
+	"fmt"
 	"math/big"
 	"sort"
 
@@ -32,7 +33,67 @@ func c10Case(g *Gen, c addchain.Chain) {
 	g.Line("c10", encInts(before), out, b01(equalInts(before, c)))
 }
 
+// c10Long: chains of more than a thousand elements (a run of doublings, a few small values near the
+// start, and final elements that are the only users of those small values), at lengths that are not
+// multiples of small numbers. The list-based Lean model is cubic in the length, so these are judged
+// here, against the property itself: the result must be a valid chain that is a subsequence of the
+// input with the same first and last element.
+func c10Long(g *Gen) {
+	for _, n := range []int{1031, 1103, 1201, 1291} {
+		for variant := 0; variant < 3; variant++ {
+			c := addchain.Chain{big.NewInt(1), big.NewInt(2), big.NewInt(3), big.NewInt(4)}
+			if variant == 1 {
+				c = append(c, big.NewInt(5), big.NewInt(7))
+			}
+			p := new(big.Int).Set(c[3])
+			for len(c) < n-1-variant {
+				p = new(big.Int).Lsh(p, 1)
+				c = append(c, p)
+			}
+			// the last elements use small values nothing else needs
+			last := c[len(c)-1]
+			c = append(c, new(big.Int).Add(last, big.NewInt(3)))
+			if variant >= 1 {
+				c = append(c, new(big.Int).Add(c[len(c)-1], c[len(c)-2]))
+			}
+			if variant == 2 {
+				c = append(c, new(big.Int).Add(c[len(c)-1], big.NewInt(2)))
+			}
+			before := cloneInts(c)
+			var o addchain.Chain
+			var err error
+			msg := ""
+			if pn := safe(func() { o, err = opt.Optimize(c) }); pn != "" {
+				msg = "panics: " + pn
+			} else if err != nil {
+				msg = "returns an error: " + err.Error()
+			} else if verr := o.Validate(); verr != nil {
+				msg = "returns a sequence that is not an addition chain: " + verr.Error()
+			} else if len(o) == 0 || o[0].Cmp(before[0]) != 0 || o[len(o)-1].Cmp(before[len(before)-1]) != 0 {
+				msg = "changes the first or last element"
+			} else if !equalInts(before, c) {
+				msg = "modifies its argument"
+			} else {
+				j := 0
+				for _, x := range before {
+					if j < len(o) && o[j].Cmp(x) == 0 {
+						j++
+					}
+				}
+				if j != len(o) {
+					msg = "returns elements that are not a subsequence of the input"
+				}
+			}
+			g.Count("long-chain")
+			if msg != "" && !g.notesViolation() {
+				g.Notes = append(g.Notes, fmt.Sprintf("VIOLATION: Optimize on a valid chain of %d elements (1 2 3 4 8 16 ... then sums using 3 and 2 only at the end, variant %d) %s", len(before), variant, msg))
+			}
+		}
+	}
+}
+
 func genC10(g *Gen) {
+	c10Long(g)
 	for l := 1; l <= g.pick(7, 9); l++ {
 		maxv := int64(1 << 40)
 		if l >= 9 {
